@@ -514,7 +514,7 @@ def recheck(jobs: int) -> int:
     Mutants whose region was changed by a repair are dropped."""
     import difflib
     old_base = Path(os.environ.get("MUTSWEEP_BASE", "/repo"))
-    new_base = Path("/repo")
+    new_base = Path(os.environ.get("MUTSWEEP_NEWBASE", "/repo"))
     rs = [json.loads(l) for l in (WORK / "results.jsonl").read_text(encoding="utf-8").splitlines()]
     surv = [r for r in rs if r["status"] == "survived"]
     maps: dict[str, list] = {}
@@ -578,8 +578,8 @@ def recheck(jobs: int) -> int:
             env2 = dict(os.environ, VERIF_REPO=str(w), VERIF_SELFTEST="1")
             for i in range(1, 21):
                 pid = f"C{i:02d}"
-                cp = subprocess.run(["/venv/bin/python", str(HERE / "check.py"), pid, "--tier", "quick"], capture_output=True, text=True,
-                                    env=env2, cwd=str(HERE))
+                cp = subprocess.run(["/venv/bin/python", str(CHECKS / "check.py"), pid, "--tier", "quick"], capture_output=True, text=True,
+                                    env=env2, cwd=str(CHECKS))
                 o = cp.stdout + cp.stderr
                 if cp.returncode == 0 and "VIOLATION" not in o:
                     continue
